@@ -680,12 +680,16 @@ impl ConnectionPool {
     /// Pause the pool, allowing no more queries and make clients wait.
     pub fn pause(&self) {
         self.paused.store(true, Ordering::Relaxed);
+        #[cfg(feature = "verif_hooks")]
+        crate::verif::event("pause", "");
     }
 
     /// Resume the pool, allowing queries and resuming any pending queries.
     pub fn resume(&self) {
         self.paused.store(false, Ordering::Relaxed);
         self.paused_waiter.notify_waiters();
+        #[cfg(feature = "verif_hooks")]
+        crate::verif::event("resume", "");
     }
 
     /// Check if the pool is paused.
@@ -696,7 +700,13 @@ impl ConnectionPool {
     /// Check if the pool is paused and wait until it's resumed.
     pub async fn wait_paused(&self) -> bool {
         let waiter = self.paused_waiter.notified();
+        #[cfg(feature = "verif_hooks")]
+        crate::verif::point("wait_paused.after_notified").await;
         let paused = self.paused.load(Ordering::Relaxed);
+        #[cfg(feature = "verif_hooks")]
+        crate::verif::event("wait_paused.enter", &format!("\"paused\":{}", paused));
+        #[cfg(feature = "verif_hooks")]
+        crate::verif::point("wait_paused.after_load").await;
 
         if paused {
             waiter.await;
@@ -782,6 +792,9 @@ impl ConnectionPool {
                     continue;
                 }
             }
+
+            #[cfg(feature = "verif_hooks")]
+            crate::verif::point("pool.get.before_checkout").await;
 
             // Check if we can connect
             let mut conn = match self.databases[address.shard][address.address_index]
@@ -925,6 +938,14 @@ impl ConnectionPool {
         }
 
         error!("Banning instance {:?}, reason: {:?}", address, reason);
+        #[cfg(feature = "verif_hooks")]
+        crate::verif::event(
+            "ban",
+            &format!(
+                "\"host\":\"{}\",\"port\":{},\"pool\":\"{}\",\"user\":\"{}\",\"reason\":\"{:?}\"",
+                address.host, address.port, address.pool_name, address.username, reason
+            ),
+        );
 
         let now = chrono::offset::Utc::now().naive_utc();
         let mut guard = self.banlist.write();
@@ -1236,6 +1257,8 @@ impl ManageConnection for ServerPool {
 
     /// Synchronously determine if the connection is no longer usable, if possible.
     fn has_broken(&self, conn: &mut Self::Connection) -> bool {
+        #[cfg(feature = "verif_hooks")]
+        conn.verif_checkin_event();
         conn.is_bad()
     }
 }
